@@ -648,7 +648,8 @@ def graph_diff(a, b, exact=False, path="obj", out=None):
     ka = _kind(a)
     if ka == "object":
         if type(b) is not type(a):
-            d("object:class", "class %s became %s" % (type(a).__name__, type(b).__name__))
+            d("object:class", "class %s.%s became %s.%s" % (type(a).__module__, type(a).__qualname__,
+                                                            type(b).__module__, type(b).__qualname__))
             return out
         va, vb = ovars(a), ovars(b)
         na, nb = set(va), set(vb)
